@@ -40,6 +40,7 @@ CONSTANTS
   MaxAdds, MaxEnds,
   AtomicAdd,     \* perChannelWriter.Add is one step
   SplitGet,      \* getWriter itself is two steps: the RLock lookup, and (on a miss) the creation under pcw.mu.Lock
+  ClosedRefuses, \* a closed channelWriter refuses items and perChannelWriter.Add looks the writer up again (the code: TRUE)
   RecheckOnStore,\* ... which looks the channel up again before storing a new writer (the code: TRUE)
   StaleTimers    \* cancelled waitTimer goroutines stay in `tg` until they fire (no-op) or exit
 
@@ -50,14 +51,15 @@ VARIABLES
   tg,            \* unfinished waitTimer goroutines: set of [id, g]
   infl,          \* per thread: [g, it] between getWriter and w.Add; g = 0: idle
   nadd, nend,
+  pclosed,       \* perChannelWriter.closed (set by Close)
   ref,           \* REFERENCE, per writer object: items added and neither flushed nor discarded, in add order
   step
 
-vars == <<cfg, cur, w, tg, infl, nadd, nend, ref, step>>
+vars == <<cfg, cur, w, tg, infl, nadd, nend, pclosed, ref, step>>
 
 NoItem == [id |-> 0, k |-> "", key |-> ""]
 Idle   == [g |-> 0, it |-> NoItem]
-EmptyW == [buf |-> <<>>, lat |-> <<>>, timer |-> 0]
+EmptyW == [buf |-> <<>>, lat |-> <<>>, timer |-> 0, closed |-> FALSE]
 
 Items(id) == {[id |-> id, k |-> "pub", key |-> key] : key \in Keys}
              \cup {[id |-> id, k |-> k, key |-> ""] : k \in NonPub}
@@ -73,7 +75,7 @@ Cfgs == {c \in [size : Sizes, delay : Delays, latest : Lates] : c.size > 0 \/ c.
 Init ==
   /\ cfg \in Cfgs
   /\ cur = 0 /\ w = <<>> /\ tg = {} /\ infl = [t \in Threads |-> Idle]
-  /\ nadd = 0 /\ nend = 0 /\ ref = <<>>
+  /\ nadd = 0 /\ nend = 0 /\ ref = <<>> /\ pclosed = FALSE
   /\ step = [act |-> "Init"]
 
 ---------------------------------------------------------------------------
@@ -98,7 +100,7 @@ AddImpl(ws, it) ==
       arm   == cfg.delay /\ total = 1 /\ ws.timer = 0
       tm1   == IF arm THEN it.id ELSE ws.timer
       full  == cfg.size > 0 /\ total >= cfg.size
-      ws1   == [buf |-> buf1, lat |-> lat1, timer |-> tm1]
+      ws1   == [buf |-> buf1, lat |-> lat1, timer |-> tm1, closed |-> FALSE]
   IN [ws      |-> IF full THEN EmptyW ELSE ws1,            \* stopTimerLocked + flushLocked
       flushed |-> IF full THEN <<Batch(ws1)>> ELSE <<>>,
       armed   |-> arm,
@@ -106,7 +108,7 @@ AddImpl(ws, it) ==
 
 \* channelWriter.close(flushRemaining)
 CloseImpl(ws, fl) ==
-  [ws      |-> EmptyW,
+  [ws      |-> [EmptyW EXCEPT !.closed = ClosedRefuses],       \* w.closed = true
    flushed |-> IF fl /\ Holds(ws) THEN <<Batch(ws)>> ELSE <<>>,
    stopped |-> ws.timer]
 
@@ -137,13 +139,19 @@ DoWAdd(g, it, wbase, refbase, act, t, created) ==
 Add(t, it) ==                                  \* AtomicAdd: getWriter + w.Add
   /\ AtomicAdd /\ nadd < MaxAdds
   /\ nadd' = nadd + 1
-  /\ LET g == GetWriterG
+  /\ IF cur # 0 /\ w[cur].closed
+       THEN \* the writer in the map was closed by Close: w.Add refuses, pcw.closed: the item is dropped
+            /\ UNCHANGED <<cur, w, tg, ref>>
+            /\ step' = [act |-> "Add", t |-> t, item |-> it, gen |-> cur, created |-> FALSE, armed |-> FALSE,
+                        orphan |-> FALSE, fl |-> FALSE, flushed |-> <<>>, dropped |-> TRUE]
+       ELSE
+     LET g == GetWriterG
          created == cur = 0
          wb == IF created THEN Append(w, EmptyW) ELSE w
          rb == IF created THEN Append(ref, <<>>) ELSE ref
      IN /\ cur' = g
         /\ DoWAdd(g, it, wb, rb, "Add", t, created)
-  /\ UNCHANGED <<cfg, infl, nend>>
+  /\ UNCHANGED <<cfg, pclosed, infl, nend>>
 
 GetWriter(t, it) ==
   /\ ~AtomicAdd /\ ~SplitGet /\ infl[t].g = 0 /\ nadd < MaxAdds
@@ -156,7 +164,7 @@ GetWriter(t, it) ==
         /\ infl' = [infl EXCEPT ![t] = [g |-> g, it |-> it]]
         /\ step' = [act |-> "GetWriter", t |-> t, item |-> it, gen |-> g, created |-> created, armed |-> FALSE,
                     orphan |-> FALSE, fl |-> FALSE, flushed |-> <<>>]
-  /\ UNCHANGED <<cfg, tg, nend>>
+  /\ UNCHANGED <<cfg, pclosed, tg, nend>>
 
 \* getWriter in its two critical sections.  Lookup: "RLock; w, exists := writers[ch]; RUnlock" (a miss is g = -1).
 \* Store: "Lock; [w, exists = writers[ch]; if !exists] { w = newChannelWriter; writers[ch] = w }; Unlock": without the
@@ -165,7 +173,7 @@ Lookup(t, it) ==
   /\ ~AtomicAdd /\ SplitGet /\ infl[t].g = 0 /\ nadd < MaxAdds
   /\ nadd' = nadd + 1
   /\ infl' = [infl EXCEPT ![t] = [g |-> IF cur = 0 THEN -1 ELSE cur, it |-> it]]
-  /\ UNCHANGED <<cfg, cur, w, tg, nend, ref>>
+  /\ UNCHANGED <<cfg, pclosed, cur, w, tg, nend, ref>>
   /\ step' = [act |-> "Lookup", t |-> t, item |-> it, gen |-> cur, created |-> FALSE, armed |-> FALSE,
               orphan |-> FALSE, fl |-> FALSE, flushed |-> <<>>]
 
@@ -179,14 +187,34 @@ Store(t) ==
         /\ infl' = [infl EXCEPT ![t].g = g]
         /\ step' = [act |-> "Store", t |-> t, item |-> infl[t].it, gen |-> g, created |-> ~reuse, armed |-> FALSE,
                     orphan |-> FALSE, fl |-> FALSE, flushed |-> <<>>]
-  /\ UNCHANGED <<cfg, tg, nadd, nend>>
+  /\ UNCHANGED <<cfg, pclosed, tg, nadd, nend>>
 
 WAdd(t) ==
   /\ ~AtomicAdd /\ infl[t].g > 0
-  /\ infl' = [infl EXCEPT ![t] = Idle]
   /\ cur' = cur
-  /\ DoWAdd(infl[t].g, infl[t].it, w, ref, "WAdd", t, FALSE)
-  /\ UNCHANGED <<cfg, nadd, nend>>
+  /\ IF w[infl[t].g].closed
+       THEN \* refused; perChannelWriter.Add returns if the whole perChannelWriter is closed, else fetches the writer again
+            /\ infl' = [infl EXCEPT ![t] = IF pclosed THEN Idle ELSE [g |-> -2, it |-> infl[t].it]]
+            /\ UNCHANGED <<w, tg, ref>>
+            /\ step' = [act |-> "WAdd", t |-> t, item |-> infl[t].it, gen |-> infl[t].g, created |-> FALSE, armed |-> FALSE,
+                        orphan |-> (infl[t].g # cur), fl |-> FALSE, flushed |-> <<>>, refused |-> TRUE, dropped |-> pclosed]
+       ELSE /\ infl' = [infl EXCEPT ![t] = Idle]
+            /\ DoWAdd(infl[t].g, infl[t].it, w, ref, "WAdd", t, FALSE)
+  /\ UNCHANGED <<cfg, pclosed, nadd, nend>>
+
+\* the loop of perChannelWriter.Add after a refusal: getWriter again
+Retry(t) ==
+  /\ ~AtomicAdd /\ infl[t].g = -2
+  /\ IF SplitGet
+       THEN /\ infl' = [infl EXCEPT ![t].g = IF cur = 0 THEN -1 ELSE cur]
+            /\ UNCHANGED <<cur, w, ref>>
+       ELSE /\ cur' = GetWriterG
+            /\ w' = IF cur = 0 THEN Append(w, EmptyW) ELSE w
+            /\ ref' = IF cur = 0 THEN Append(ref, <<>>) ELSE ref
+            /\ infl' = [infl EXCEPT ![t].g = GetWriterG]
+  /\ step' = [act |-> "Retry", t |-> t, item |-> infl[t].it, gen |-> IF cur = 0 THEN Len(w) + 1 ELSE cur, created |-> (cur = 0 /\ ~SplitGet),
+              armed |-> FALSE, orphan |-> FALSE, fl |-> FALSE, flushed |-> <<>>]
+  /\ UNCHANGED <<cfg, pclosed, tg, nadd, nend>>
 
 \* waitTimer, case <-tm.C
 TimerFire(x) ==
@@ -203,13 +231,13 @@ TimerFire(x) ==
            /\ UNCHANGED <<w, ref>>
            /\ step' = [act |-> "TimerFire", id |-> x.id, gen |-> x.g, stale |-> TRUE, orphan |-> (x.g # cur),
                        fl |-> FALSE, item |-> NoItem, flushed |-> <<>>]
-  /\ UNCHANGED <<cfg, cur, infl, nadd, nend>>
+  /\ UNCHANGED <<cfg, pclosed, cur, infl, nadd, nend>>
 
 \* waitTimer, case <-stop (only a cancelled timer)
 TimerExit(x) ==
   /\ x \in tg /\ w[x.g].timer # x.id
   /\ tg' = tg \ {x}
-  /\ UNCHANGED <<cfg, cur, w, infl, nadd, nend, ref>>
+  /\ UNCHANGED <<cfg, pclosed, cur, w, infl, nadd, nend, ref>>
   /\ step' = [act |-> "TimerExit", id |-> x.id, gen |-> x.g, orphan |-> FALSE, fl |-> FALSE, item |-> NoItem, flushed |-> <<>>]
 
 DelWriter(fl) ==
@@ -223,7 +251,7 @@ DelWriter(fl) ==
                /\ ref' = [ref EXCEPT ![cur] = <<>>]
                /\ cur' = 0
                /\ step' = [act |-> "Del", fl |-> fl, gen |-> cur, orphan |-> FALSE, item |-> NoItem, flushed |-> r.flushed]
-  /\ UNCHANGED <<cfg, infl, nadd>>
+  /\ UNCHANGED <<cfg, pclosed, infl, nadd>>
 
 \* perChannelWriter.Close: every writer in the map is closed, none is removed
 Close(fl) ==
@@ -236,11 +264,12 @@ Close(fl) ==
                /\ tg' = Cancel(tg, cur, r.stopped)
                /\ ref' = [ref EXCEPT ![cur] = <<>>]
                /\ step' = [act |-> "Close", fl |-> fl, gen |-> cur, orphan |-> FALSE, item |-> NoItem, flushed |-> r.flushed]
+  /\ pclosed' = TRUE                       \* pcw.closed
   /\ UNCHANGED <<cfg, cur, infl, nadd>>
 
 Next ==
   \/ \E t \in Threads, it \in Items(nadd + 1) : Add(t, it) \/ GetWriter(t, it) \/ Lookup(t, it)
-  \/ \E t \in Threads : WAdd(t) \/ Store(t)
+  \/ \E t \in Threads : WAdd(t) \/ Store(t) \/ Retry(t)
   \/ \E x \in tg : TimerFire(x) \/ TimerExit(x)
   \/ \E fl \in BOOLEAN : DelWriter(fl) \/ Close(fl)
 
@@ -278,7 +307,9 @@ EndDiscards   == [][ (step'.act \in {"Del", "Close"} /\ ~step'.fl) => step'.flus
 \* nothing reaches the connection from a writer object that was removed (the subscription ended)
 NoOrphanFlush == [][ Flushing => ~step'.orphan ]_vars
 \* a size flush happens exactly when the size is reached
-SizeExact == [][ step'.act \in {"Add", "WAdd"} =>
+\* (an Add refused by a closed writer, or dropped after Close, adds nothing)
+Accepted(st) == "dropped" \notin DOMAIN st /\ "refused" \notin DOMAIN st
+SizeExact == [][ (step'.act \in {"Add", "WAdd"} /\ Accepted(step')) =>
                    ((step'.flushed # <<>>) <=> (cfg.size > 0 /\ Len(Expected(Pre)) >= cfg.size)) ]_vars
 
 \* state invariants (design level; the harness compares them through read-only accessors)
@@ -289,8 +320,9 @@ TimerSane == \A g \in 1..Len(w) :
                /\ (cfg.delay /\ Holds(w[g])) => w[g].timer # 0         \* nothing waits without a timer
 \* (configurations without removals) every buffered item sits in the writer the map reaches
 SingleWriter == \A g \in 1..Len(w) : (g # cur) => ~Holds(w[g])
-TypeOK == /\ cur \in 0..Len(w) /\ Len(ref) = Len(w) /\ nadd <= MaxAdds /\ nend <= MaxEnds
+TypeOK == /\ cur \in 0..Len(w)
+          /\ (cur # 0 /\ w[cur].closed) => pclosed      \* a closed writer stays in the map only after Close /\ Len(ref) = Len(w) /\ nadd <= MaxAdds /\ nend <= MaxEnds
           /\ \A g \in 1..Len(w) : (g # cur /\ AtomicAdd) => ~Holds(w[g])
 
-View == <<cfg, cur, w, tg, infl, nadd, nend, ref>>
+View == <<cfg, cur, w, tg, infl, nadd, nend, pclosed, ref>>
 =============================================================================
